@@ -414,6 +414,9 @@ class Executor(object):
                     facts.append(z3.Or(*[cls[term] == i for i in ids]))
                 elif ty.args[0] in self.world.class_ids:
                     facts.append(cls[term] == self.world.cid(ty.args[0]))
+                inv = getattr(self.world, 'class_invariants', {}).get(ty.args[0])
+                if inv is not None:
+                    facts.extend(inv(self, st, term))
             else:
                 facts.append(cls[term] == self.world.cid(k))
             if k in ('list', 'tuple'):
